@@ -402,6 +402,7 @@ func randomFileC05(r *rand.Rand) FileDef {
 		parsable = append(parsable, pickParsable(r, distinct)...)
 	}
 	fd.Opts.Parsable = parsable
+	tagParsable(&fd)
 	return fd
 }
 
@@ -424,6 +425,7 @@ func randomFileC12(r *rand.Rand) FileDef {
 		}
 	}
 	fd.Opts.Parsable = parsable
+	tagParsable(&fd)
 	return fd
 }
 
@@ -520,4 +522,44 @@ func corpusC12() []FileDef {
 			Const{Name: "Yes", Val: "1", Cells: []Cell{cellOf(kb, "_", "", 0, true), cellOf(kr, "_", "", 'y', false)}}),
 	}})
 	return out
+}
+
+
+// tagParsable adds the shape tags that depend on which columns are declared parsable.
+func tagParsable(fd *FileDef) {
+	par := map[string]bool{}
+	for _, p := range fd.Opts.Parsable {
+		par[p] = true
+	}
+	for ei := range fd.Enums {
+		e := &fd.Enums[ei]
+		names := columnsOf(e)
+		add := func(tag string) {
+			if !contains(e.Shape, tag) {
+				e.Shape = append(e.Shape, tag)
+				sort.Strings(e.Shape)
+			}
+		}
+		any := false
+		for _, c := range e.Consts {
+			seen := map[string]bool{}
+			for j, cl := range c.Cells {
+				if j >= len(names) || !par[names[j]] {
+					continue
+				}
+				any = true
+				if cl.Kind == "bool" {
+					add("parsable_bool_trait")
+				}
+				key := cl.Ty + "|" + cl.Kind + "|" + cl.Str + "|" + cl.Int + "|" + strconv.FormatBool(cl.Bool)
+				if seen[key] {
+					add("parsable_traits_equal_cells")
+				}
+				seen[key] = true
+			}
+		}
+		if any {
+			add("parsable_traits")
+		}
+	}
 }
